@@ -168,11 +168,40 @@ def _shard_child(modname, tier, seed, idx, n, outpath):
     mod = importlib.import_module(modname)
     try:
         res = mod.shard(tier, seed, idx, n)
-    except BaseException:
+    except BaseException as e:
         res = Result()
-        res.inconclusive.append("shard %d crashed: %s" % (idx, traceback.format_exc()[-1500:]))
+        key = _internal_error_in_library(e)
+        if key is not None:
+            # a programming error (NameError, TypeError, ...) raised inside the library under test and escaping into the
+            # workload is what the monitors are there to notice, wherever the harness happened to stand at that moment
+            res.violation(key, "shard %d of %s: %s" % (idx, tier, traceback.format_exc()[-1200:]),
+                          ("shard-crash", tier, seed, idx, n))
+            res.case(("shard-crash", idx))
+        else:
+            res.inconclusive.append("shard %d crashed: %s" % (idx, traceback.format_exc()[-1500:]))
     with open(outpath, "wb") as f:
         pickle.dump(res, f)
+
+
+INTERNAL_ERROR_TYPES = (NameError, AttributeError, TypeError, KeyError, IndexError, AssertionError, ZeroDivisionError,
+                        RecursionError, UnicodeError)
+
+
+def _internal_error_in_library(exc):
+    """-> mechanism key when exc is a programming-error type raised from a frame of the library under test, else None"""
+    if not isinstance(exc, INTERNAL_ERROR_TYPES):
+        return None
+    tb = exc.__traceback__
+    last = None
+    while tb is not None:
+        last = tb
+        tb = tb.tb_next
+    if last is None:
+        return None
+    fn = last.tb_frame.f_code.co_filename.replace("\\", "/")
+    if "/pymemcache/" not in fn or "/pymemcache/test/" in fn:
+        return None
+    return "internal-error-escapes-the-library:%s:%s:%s" % (type(exc).__name__, os.path.basename(fn), last.tb_frame.f_code.co_name)
 
 
 def run_check(modname, tier, seed, nshards=None, shard_timeout=None):
@@ -347,6 +376,23 @@ def run_replay(path):
     mod = importlib.import_module("checks.%s" % prop.lower())
     case = ast.literal_eval(rec["case"])
     t0 = time.time()
+    if isinstance(case, (tuple, list)) and case and case[0] == "shard-crash":
+        # re-run the shard in this process
+        _, tier_, seed_, idx_, n_ = case
+        try:
+            res = mod.shard(tier_, seed_, idx_, n_)
+        except BaseException as e:
+            res = Result()
+            key = _internal_error_in_library(e)
+            traceback.print_exc()
+            if key is not None:
+                res.violation(key, traceback.format_exc()[-1200:], case)
+            else:
+                res.inconclusive.append("shard crashed again: %r" % (e,))
+        res.nontrivial.update({1, 2})
+        for c in getattr(mod, "REQUIRED_COUNTERS", []):
+            res.counters[c] += 1
+        return finish(mod, res, tier_, seed_, time.time() - t0, write_evidence=False)
     res = mod.replay(case)
     res.nontrivial.update({1, 2})  # replay is a single case; no floor applies
     for c in getattr(mod, "REQUIRED_COUNTERS", []):
